@@ -101,6 +101,14 @@ fn families(tier: &Tier) -> Vec<(Box<dyn Family>, u64)> {
             1,
         ),
         (Box::new(F9 { wide: true }), if q { 64 } else { 4 }),
+        // soft requirements: ordered lists, repeated entries, conflicting entries (the listed order is the
+        // priority order and shows in the returned solution)
+        (Box::new(F11), if q { 16 } else { 2 }),
+        (Box::new(F13), 1),
+        (
+            Box::new(Decorated::new_with("F5 soft skeletons", soft_skeletons(), 2, false, &|_, d| matches!(d, Deco::Soft(_)))),
+            if q { 2 } else { 1 },
+        ),
         // every package displays the same name (e.g. channel-qualified names that print alike): nodes of
         // different packages can then end up in one merged group of the message
         (
